@@ -15,7 +15,8 @@
 (***************************************************************************)
 EXTENDS CookAnalysis, Json
 
-CONSTANTS Mode,        \* "bfs": every choice enumerated (small pools, canonical spelling); "sim": random choice
+CONSTANTS Defects,     \* TRUE: the C07 defect actions are enabled (at most one defect per document)
+          Mode,        \* "bfs": every choice enumerated (small pools, canonical spelling); "sim": random choice
           Kernel,      \* which pools / actions are enabled: "ref" | "struct" | "switch" | "full"
           MaxBlocks, MaxItems, MaxComps
 
@@ -31,12 +32,14 @@ Pick(S) == IF Mode = "sim" THEN {R(S)} ELSE S
 
 (* ---- pools ------------------------------------------------------------------------------ *)
 Names == CASE Kernel \in {"ref", "cw"} -> {"a", "A", "b"}
+           [] Kernel = "defect" -> {"a"}
            [] Kernel \in {"struct", "switch"} -> {"a", "b"}
            [] OTHER -> {"a", "A", "b", "salt", "Salt", "olive oil", "crE2me", "E4"}
 SingleWord(n) == n \notin {"olive oil", "frying pan"}
 NameChunks(n) == CASE n = "crE2me" -> <<"cr", "E2", "me">> [] OTHER -> <<n>>
 ModSets == IF ~Has("MODIFIERS") THEN {{}}
            ELSE CASE Kernel \in {"ref", "cw"} -> {{}, {"ref"}, {"new"}, {"hidden"}, {"opt"}, {"ref", "opt"}, {"ref", "new"}}
+                  [] Kernel = "defect" -> {{}}
                   [] Kernel \in {"struct", "switch"} -> {{}, {"ref"}}
                   [] OTHER -> {{}, {}, {}, {"ref"}, {"ref"}, {"new"}, {"hidden"}, {"opt"}, {"recipe"}, {"ref", "opt"}, {"ref", "hidden"},
                                {"hidden", "opt"}, {"ref", "new"}}
@@ -48,7 +51,7 @@ Num(s) == [t |-> "num", s |-> s]
 Frac(wh, n, d) == [t |-> "frac", w |-> wh, n |-> n, d |-> d]
 Rng(x, y) == [t |-> "range", a |-> x, b |-> y]
 Txt(s) == [t |-> "text", s |-> s]
-Values == CASE Kernel \in {"ref", "cw", "struct", "switch"} -> {Num("2")}
+Values == CASE Kernel \in {"ref", "cw", "struct", "switch", "defect"} -> {Num("2")}
             [] OTHER -> {Num("2"), Num("1.5"), Num("250"), Frac(0, 1, 2), Frac(1, 3, 4), Txt("some"), Txt("a pinch"),
                          Rng(Num("2"), Num("3")), Rng(Num("1.5"), Frac(0, 7, 2))}
 Units == IF Kernel = "full" THEN {"", "", "g", "kg", "ml", "cups", "tsp", "bag", "min"} ELSE {""}
@@ -109,9 +112,15 @@ CompChunks(kind, c, sp) ==
   \o (IF NeedsBraces(c) \/ sp.braces THEN <<"{">> \o (IF c.q = NoQ THEN <<sp.pad>> ELSE QtyChunks(c.q, sp)) \o <<"}">> ELSE <<>>)
   \o (IF c.note # "" THEN <<"(", c.note, ")">> ELSE <<>>)
 
+(* ---- byte offsets of what has been written (labels of diagnostics are byte spans) -------------------- *)
+ChunkBytes(c) == CASE c \in {"LF", "CR", "BS", "QUOTE", "TAB"} -> 1 [] c \in {"E2", "DEG", "NBSP"} -> 2 [] c = "E4" -> 4 [] OTHER -> Len(c)
+RECURSIVE BytesOf(_, _)
+BytesOf(cs, i) == IF i > Len(cs) THEN 0 ELSE ChunkBytes(cs[i]) + BytesOf(cs, i + 1)
+NoDefect == [class |-> "", sev |-> "", stage |-> "", s |-> 0, e |-> 0]
+
 (* ---- writer state ------------------------------------------------------------------------------ *)
 W0 == [phase |-> "top", nb |-> 0, ni |-> 0, nc |-> 0, run |-> <<>>, prev |-> "none", crlf |-> FALSE, fm |-> FALSE,
-       wellformed |-> TRUE, uses |-> {}, last |-> "none"]
+       wellformed |-> TRUE, uses |-> {}, last |-> "none", defect |-> NoDefect]
 Init == text = <<>> /\ a = A0 /\ w = W0
 InitCRLF == text = <<>> /\ a = A0 /\ w \in {W0, [W0 EXCEPT !.crlf = TRUE]}
 
@@ -132,9 +141,10 @@ AddMeta == /\ Top /\ a.oldStyle /\ Kernel = "full"
 ModeValues == {[k |-> "[mode]", v |-> "all"], [k |-> "[mode]", v |-> "components"], [k |-> "[mode]", v |-> "steps"],
                [k |-> "[define]", v |-> "ingredients"], [k |-> "[duplicate]", v |-> "ref"], [k |-> "[duplicate]", v |-> "new"],
                [k |-> "[duplicate]", v |-> "reference"], [k |-> "[mode]", v |-> "default"]}
-ModeSwitch == /\ Top /\ Has("MODES") /\ Kernel \in {"full", "switch", "ref", "cw"}
+ModeSwitch == /\ Top /\ Has("MODES") /\ Kernel \in {"full", "switch", "ref", "cw", "defect"}
               /\ (Kernel \in {"ref", "cw"} => w.nb = 0)
-              /\ \E m \in Pick(ModeValues \cup (IF Kernel = "full" THEN {[k |-> "[mode]", v |-> "text"]} ELSE {})), sp \in SpSet :
+              /\ \E m \in Pick(IF Kernel = "defect" THEN {[k |-> "[mode]", v |-> "all"], [k |-> "[mode]", v |-> "components"]}
+                               ELSE ModeValues \cup (IF Kernel = "full" THEN {[k |-> "[mode]", v |-> "text"]} ELSE {})), sp \in SpSet :
                    /\ text' = text \o BlockGap("meta", sp) \o <<">> ", m.k, ": ", m.v>> \o NL
                    /\ a' = AMeta(a, m.k, m.v)
                    /\ w' = [w EXCEPT !.nb = @ + 1, !.prev = "meta", !.uses = @ \cup {"MODES"}]
@@ -168,7 +178,7 @@ ItemSep(sp) == IF w.ni = 0 THEN <<>>
                ELSE CASE sp.sep \in {1, 2} -> <<" ">> [] sp.sep = 3 -> NL [] sp.sep = 4 -> <<" [- c -] ">> [] sp.sep = 5 -> <<" -- c">> \o NL
 InStep == w.phase = "step" /\ w.ni < MaxItems
 SepPiece == IF w.ni = 0 THEN <<>> ELSE <<[t |-> "s", v |-> " "]>>
-AddWord == /\ InStep /\ Kernel \in {"full", "struct"}
+AddWord == /\ InStep /\ Kernel \in {"full", "struct", "defect"}
            /\ \E x \in Pick(Words), sp \in SpSet :
                 /\ text' = text \o ItemSep(sp) \o WordChunks(x)
                 /\ w' = [w EXCEPT !.ni = @ + 1, !.run = @ \o SepPiece \o <<[t |-> "s", v |-> WordText(x)]>>, !.last = "word"]
@@ -181,7 +191,8 @@ AddInline == /\ InStep /\ Kernel = "full" /\ w.last # "inline"
                                     !.run = @ \o SepPiece \o <<[t |-> "q", n |-> q.n, u |-> IF q.u = "C" THEN "DEGC" ELSE q.u,
                                                                 raw |-> q.n \o " " \o (IF q.u = "C" THEN "DEGC" ELSE q.u)]>>]
              /\ UNCHANGED a
-RunAlnum == \E i \in DOMAIN w.run : w.run[i].t = "q" \/ w.run[i].v # " "
+\* does the pending text contain a letter or digit (char::is_alphanumeric; the emoji word does not)
+RunAlnum == \E i \in DOMAIN w.run : w.run[i].t = "q" \/ w.run[i].v \notin {" ", "E4"}
 Flush(s, trailing) == IF w.run = <<>> /\ ~trailing THEN s
                       ELSE IF w.run = <<>> /\ w.ni = 0 THEN s
                       ELSE AText(s, w.run \o (IF trailing THEN <<[t |-> "s", v |-> " "]>> ELSE <<>>), RunAlnum)
@@ -207,8 +218,8 @@ AddInterRef == /\ InStep /\ w.nc < MaxComps /\ Has("INTERMEDIATE") /\ Kernel \in
                      ms \in Pick(IF Kernel = "full" THEN {{"ref"}, {"ref"}, {"ref", "opt"}} ELSE {{"ref"}}), sp \in SpSet :
                     WriteComp("igr", [name |-> n, alias |-> "", mods |-> ms, inter |-> it, q |-> NoQ, note |-> ""], [sp EXCEPT !.braces = TRUE])
 CwQuantities == {NoQ, [v |-> Num("2"), unit |-> "", lock |-> FALSE], [v |-> Txt("some"), unit |-> "", lock |-> FALSE]}
-AddCookware == /\ InStep /\ w.nc < MaxComps /\ Kernel \in {"full", "cw"}
-               /\ \E n \in Pick(IF Kernel = "full" THEN {"pan", "Pan", "frying pan"} ELSE {"a", "A", "b"}), ms \in Pick(ModSets \ {{"recipe"}}),
+AddCookware == /\ InStep /\ w.nc < MaxComps /\ Kernel \in {"full", "cw", "defect"}
+               /\ \E n \in Pick(CASE Kernel = "full" -> {"pan", "Pan", "frying pan"} [] Kernel = "defect" -> {"p"} [] OTHER -> {"a", "A", "b"}), ms \in Pick(ModSets \ {{"recipe"}}),
                      q \in Pick(IF Kernel = "full" THEN CwQuantities ELSE {NoQ, [v |-> Num("2"), unit |-> "", lock |-> FALSE]}), nt \in Pick(Notes), sp \in SpSet :
                     WriteComp("cw", [name |-> n, alias |-> "", mods |-> ms, inter |-> NoInter, q |-> q, note |-> nt], sp)
 AddTimer == /\ InStep /\ w.nc < MaxComps /\ Kernel = "full"
@@ -216,6 +227,110 @@ AddTimer == /\ InStep /\ w.nc < MaxComps /\ Kernel = "full"
                  /\ (noq => n # "" /\ ~Has("TIMER_REQ"))
                  /\ WriteComp("tm", [name |-> n, alias |-> "", mods |-> {}, inter |-> NoInter,
                                      q |-> IF noq THEN NoQ ELSE [v |-> v, unit |-> u, lock |-> FALSE], note |-> ""], sp)
+(* ---- C07: one cataloged invalid construct somewhere in an otherwise generated document -------------------- *)
+\* parse-stage defects: [chunks, class, sev, needs]; the parser reports them and no recipe comes out
+ParseDefects ==
+  { [cs |-> <<"@{}">>, class |-> "EmptyName", sev |-> "error", needs |-> {}],
+    [cs |-> <<"#{}">>, class |-> "EmptyName", sev |-> "error", needs |-> {}],
+    [cs |-> <<"@a{1/0}">>, class |-> "DivisionByZero", sev |-> "error", needs |-> {}],
+    [cs |-> <<"@a{2 1/0%g}">>, class |-> "DivisionByZero", sev |-> "error", needs |-> {}],
+    [cs |-> <<"@a{1-3/0%g}">>, class |-> "DivisionByZero", sev |-> "error", needs |-> {"RANGE"}],
+    [cs |-> <<"@a{1/0 - 3}">>, class |-> "DivisionByZero", sev |-> "error", needs |-> {"RANGE"}],
+    [cs |-> <<"#pan{1-5/0}">>, class |-> "DivisionByZero", sev |-> "error", needs |-> {"RANGE"}],
+    [cs |-> <<"~{1-7/0%min}">>, class |-> "DivisionByZero", sev |-> "error", needs |-> {"RANGE"}],
+    [cs |-> <<"@a{99999999999/2}">>, class |-> "IntegerOverflow", sev |-> "error", needs |-> {}],
+    [cs |-> <<"@a{%g}">>, class |-> "EmptyValue", sev |-> "error", needs |-> {}],
+    [cs |-> <<"#pan{ %}">>, class |-> "EmptyValue", sev |-> "error", needs |-> {}],
+    [cs |-> <<"#pan{1%kg}">>, class |-> "CookwareUnit", sev |-> "error", needs |-> {}],
+    [cs |-> <<"~{5}">>, class |-> "TimerMissingUnit", sev |-> "error", needs |-> {}],
+    [cs |-> <<"~rest{1/2}">>, class |-> "TimerMissingUnit", sev |-> "error", needs |-> {}],
+    [cs |-> <<"~rest">>, class |-> "TimerMissingQuantity", sev |-> "error", needs |-> {"TIMER_REQ"}],
+    [cs |-> <<"~rest{}">>, class |-> "TimerMissingQuantity", sev |-> "error", needs |-> {"TIMER_REQ"}],
+    [cs |-> <<"~{}">>, class |-> IF Has("TIMER_REQ") THEN "TimerMissingQuantity" ELSE "TimerEmpty", sev |-> "error", needs |-> {}],
+    [cs |-> <<"@&&a">>, class |-> "DuplicateModifier", sev |-> "error", needs |-> {"MODIFIERS"}],
+    [cs |-> <<"#-?-pan{}">>, class |-> "DuplicateModifier", sev |-> "error", needs |-> {"MODIFIERS"}],
+    [cs |-> <<"#@pan">>, class |-> "CookwareRecipeModifier", sev |-> "error", needs |-> {"MODIFIERS"}],
+    [cs |-> <<"~&t{1%min}">>, class |-> "TimerModifiers", sev |-> "error", needs |-> {"MODIFIERS"}],
+    [cs |-> <<"@a|b|c{}">>, class |-> "MultipleAliases", sev |-> "error", needs |-> {"ALIAS"}],
+    [cs |-> <<"@a|{}">>, class |-> "EmptyAlias", sev |-> "error", needs |-> {"ALIAS"}],
+    [cs |-> <<"#pan| {}">>, class |-> "EmptyAlias", sev |-> "error", needs |-> {"ALIAS"}],
+    [cs |-> <<"~a|b{1%min}">>, class |-> "TimerAlias", sev |-> "error", needs |-> {"ALIAS"}],
+    [cs |-> <<"#&(1)pan{}">>, class |-> "CookwareIntermediate", sev |-> "error", needs |-> {"INTERMEDIATE"}],
+    [cs |-> <<"@&(x)a{}">>, class |-> "InterSyntax", sev |-> "error", needs |-> {"INTERMEDIATE"}],
+    [cs |-> <<"@&(~=1)a{}">>, class |-> "InterSyntax", sev |-> "error", needs |-> {"INTERMEDIATE"}] }
+DefectHere(d, sp, chunks) == LET s0 == BytesOf(text, 1) + BytesOf(ItemSep(sp), 1)
+                             IN [class |-> d.class, sev |-> d.sev, stage |-> d.stage, s |-> s0, e |-> s0 + BytesOf(chunks, 1)]
+AddParseDefect == /\ InStep /\ w.defect = NoDefect /\ Kernel \in {"full", "defect"}
+                  /\ \E d \in Pick({x \in ParseDefects : x.needs \subseteq Ext}), sp \in SpSet :
+                       /\ text' = text \o ItemSep(sp) \o d.cs
+                       /\ a' = AParseError(Flush(a, w.ni > 0))
+                       /\ w' = [w EXCEPT !.ni = @ + 1, !.nc = @ + 1, !.run = <<>>, !.last = "comp",
+                                         !.defect = DefectHere([class |-> d.class, sev |-> d.sev, stage |-> "parse"], sp, d.cs)]
+\* analysis-stage defects: well-formed syntax the analysis must refuse; the recipe still comes out
+AnalysisDefects ==
+  { [kind |-> "igr", c |-> [name |-> "zzz", alias |-> "", mods |-> {"ref"}, inter |-> NoInter, q |-> NoQ, note |-> ""], class |-> "RefNotFound", needs |-> {"MODIFIERS"}],
+    [kind |-> "cw", c |-> [name |-> "zzz", alias |-> "", mods |-> {"ref"}, inter |-> NoInter, q |-> NoQ, note |-> ""], class |-> "RefNotFound", needs |-> {"MODIFIERS"}],
+    [kind |-> "igr", c |-> [name |-> "x", alias |-> "", mods |-> {"ref"}, inter |-> [mode |-> "relative", kind |-> "step", val |-> 9], q |-> NoQ, note |-> ""],
+       class |-> "InterOutOfBounds", needs |-> {"INTERMEDIATE"}],
+    [kind |-> "igr", c |-> [name |-> "x", alias |-> "", mods |-> {"ref"}, inter |-> [mode |-> "number", kind |-> "section", val |-> 9], q |-> NoQ, note |-> ""],
+       class |-> "InterOutOfBounds", needs |-> {"INTERMEDIATE"}],
+    [kind |-> "igr", c |-> [name |-> "x", alias |-> "", mods |-> {"ref"}, inter |-> [mode |-> "number", kind |-> "step", val |-> 0], q |-> NoQ, note |-> ""],
+       class |-> "InterZero", needs |-> {"INTERMEDIATE"}],
+    [kind |-> "igr", c |-> [name |-> "x", alias |-> "", mods |-> {"ref", "hidden"}, inter |-> [mode |-> "relative", kind |-> "step", val |-> 1], q |-> NoQ, note |-> ""],
+       class |-> "InterConflictMods", needs |-> {"INTERMEDIATE"}],
+    [kind |-> "igr", c |-> [name |-> "a", alias |-> "", mods |-> {"ref", "new"}, inter |-> NoInter, q |-> NoQ, note |-> ""], class |-> "ConflictMods", needs |-> {"MODIFIERS"}],
+    [kind |-> "tm", c |-> [name |-> "", alias |-> "", mods |-> {}, inter |-> NoInter, q |-> [v |-> Num("5"), unit |-> "kg", lock |-> FALSE], note |-> ""],
+       class |-> IF Conv = "bundled" THEN "TimerNotTime" ELSE "UnknownTimerUnit", needs |-> {"ADVANCED_UNITS"}],
+    [kind |-> "tm", c |-> [name |-> "t", alias |-> "", mods |-> {}, inter |-> NoInter, q |-> [v |-> Num("5"), unit |-> "zz", lock |-> FALSE], note |-> ""],
+       class |-> "UnknownTimerUnit", needs |-> {"ADVANCED_UNITS"}],
+    [kind |-> "tm", c |-> [name |-> "t", alias |-> "", mods |-> {}, inter |-> NoInter, q |-> [v |-> Txt("some"), unit |-> "min", lock |-> FALSE], note |-> ""],
+       class |-> "TimerTextValue", needs |-> {"ADVANCED_UNITS"}] }
+AddAnalysisDefect == /\ InStep /\ w.defect = NoDefect /\ Kernel \in {"full", "defect"} /\ ~a.blk.text /\ a.defMode # "steps"
+                     /\ \E d \in Pick({x \in AnalysisDefects : x.needs \subseteq Ext}), sp0 \in SpSet :
+                          LET sp == [sp0 EXCEPT !.braces = TRUE, !.adv = FALSE]
+                              chunks == CompChunks(d.kind, d.c, sp)
+                          IN /\ text' = text \o ItemSep(sp) \o chunks
+                             /\ a' = AComponent(Flush(a, w.ni > 0), d.kind, [d.c EXCEPT !.q = ReadQty(d.c.q)], Flat(chunks, 1))
+                             /\ w' = [w EXCEPT !.ni = @ + 1, !.nc = @ + 1, !.run = <<>>, !.last = "comp",
+                                               !.defect = DefectHere([class |-> d.class, sev |-> "error", stage |-> "analysis"], sp, chunks)]
+\* references that break a rule with respect to an EXISTING definition: a note on a reference, a modifier the
+\* definition lacks, a quantity although the definition (made in components mode) already has one
+RefDefectKinds == {"note", "mods", "qty"}
+Candidates(tbl, which) == {k \in DOMAIN tbl : /\ tbl[k].rel.t = "def" /\ tbl[k].mods = {} /\ tbl[k].alias = ""
+                                                /\ LastDef(tbl, tbl[k].name, Len(tbl)) = k /\ SingleWord(tbl[k].name)
+                                                /\ (which = "qty" => (tbl[k].q # NoQ /\ ~tbl[k].rel.inStep /\ ~IsTextVal(tbl[k].q.v)))
+                                                /\ (which # "qty" => tbl[k].q = NoQ \/ tbl[k].rel.inStep)}
+AddRefDefect == /\ InStep /\ w.defect = NoDefect /\ Kernel \in {"full", "defect"} /\ Has("MODIFIERS") /\ ~a.blk.text
+                /\ a.defMode = "all" /\ a.dupMode = "new"
+                /\ \E kind \in Pick({"igr", "cw"}), which \in Pick(RefDefectKinds), sp0 \in SpSet :
+                     LET tbl == IF kind = "igr" THEN a.igr ELSE a.cw IN
+                     \E i \in Pick(Candidates(tbl, which) \cup {0}) :
+                     /\ i # 0
+                     /\ LET sp == [sp0 EXCEPT !.braces = TRUE, !.adv = FALSE]
+                            c == [name |-> tbl[i].name, alias |-> "", mods |-> IF which = "mods" THEN {"ref", "hidden"} ELSE {"ref"},
+                                  inter |-> NoInter, q |-> IF which = "qty" THEN [v |-> Num("2"), unit |-> "", lock |-> FALSE] ELSE NoQ,
+                                  note |-> IF which = "note" THEN "finely chopped" ELSE ""]
+                            chunks == CompChunks(kind, c, sp)
+                            class == CASE which = "note" -> "NoteOnRef" [] which = "mods" -> "ConflictMods" [] which = "qty" -> "ConflictQty"
+                        IN /\ text' = text \o ItemSep(sp) \o chunks
+                           /\ a' = AComponent(Flush(a, w.ni > 0), kind, c, Flat(chunks, 1))
+                           /\ w' = [w EXCEPT !.ni = @ + 1, !.nc = @ + 1, !.run = <<>>, !.last = "comp",
+                                             !.defect = DefectHere([class |-> class, sev |-> "error", stage |-> "analysis"], sp, chunks)]
+BadModeValue == /\ Top /\ Has("MODES") /\ w.defect = NoDefect /\ Kernel \in {"full", "defect"}
+                /\ \E k \in Pick({"[mode]", "[duplicate]"}), sp \in SpSet :
+                     LET gap == BlockGap("meta", sp) line == <<">> ", k, ": ", "banana">> s0 == BytesOf(text, 1) + BytesOf(gap, 1) IN
+                     /\ text' = text \o gap \o line \o NL
+                     /\ a' = AMeta(a, k, "banana")
+                     /\ w' = [w EXCEPT !.nb = @ + 1, !.prev = "meta",
+                                       !.defect = [class |-> "BadModeValue", sev |-> "error", stage |-> "analysis", s |-> s0, e |-> s0 + BytesOf(line, 1)]]
+BadFrontMatter == /\ Top /\ w.nb = 0 /\ text = <<>> /\ Kernel \in {"full", "defect"}
+                  /\ \E y \in Pick({<<"k: [a">>, <<"k: v">> \o NL \o <<" : : x">>, <<"k: ", "QUOTE", "open">>}) :
+                       LET t == <<"---">> \o NL \o y \o NL \o <<"---">> \o NL IN
+                       /\ text' = t
+                       /\ a' = AFrontMatter(a, <<>>, FALSE)
+                       /\ w' = [w EXCEPT !.nb = @ + 1, !.prev = "meta", !.fm = TRUE,
+                                         !.defect = [class |-> "BadFrontMatter", sev |-> "error", stage |-> "analysis", s |-> 0, e |-> BytesOf(t, 1)]]
+
 EndStep == /\ w.phase = "step" /\ w.ni > 0
            /\ text' = text \o NL
            /\ a' = AEnd(Flush(a, FALSE))
@@ -224,16 +339,18 @@ Finish == /\ w.phase = "top" /\ w.nb > 0
           /\ a' = AFinish(a) /\ w' = [w EXCEPT !.phase = "done"] /\ UNCHANGED text
 Next == AddMeta \/ ModeSwitch \/ FrontMatter \/ AddSection \/ AddTextBlock \/ BeginStep \/ AddWord \/ AddInline
         \/ AddIngredient \/ AddInterRef \/ AddCookware \/ AddTimer \/ EndStep \/ Finish
+        \/ (Defects /\ (AddParseDefect \/ AddAnalysisDefect \/ AddRefDefect \/ BadModeValue \/ BadFrontMatter))
 Done == w.phase = "done"
 
 (* ---- what the specification predicts for the finished document ------------------------------------- *)
 DiagClasses == [i \in DOMAIN a.diags |-> a.diags[i]]
 OnlyDeprecation == \A i \in DOMAIN a.diags : a.diags[i].class = "DeprecatedMetadata"
-Prediction == [model |-> ModelOf(a), valid |-> Valid(a), diags |-> a.diags, wellformed |-> OnlyDeprecation, failed |-> a.failed]
-Emit == Done => PrintT(<<"REPLAY", ToJson([text |-> text, ext |-> Ext, conv |-> Conv, pred |-> Prediction])>>)
+Prediction == [model |-> ModelOf(a), valid |-> Valid(a), diags |-> a.diags, wellformed |-> (OnlyDeprecation /\ ~a.failed /\ w.defect = NoDefect), failed |-> a.failed]
+Emit == Done => PrintT(<<"REPLAY", IF w.defect = NoDefect THEN ToJson([text |-> text, ext |-> Ext, conv |-> Conv, pred |-> Prediction])
+                                   ELSE ToJson([text |-> text, ext |-> Ext, conv |-> Conv, pred |-> Prediction, defect |-> w.defect])>>)
 
 (* ---- C06 / C07 at model level: invariants of every reachable analysis state ------------------------------ *)
-InvConsistent == Done => Consistent(ModelOf(a))
+InvConsistent == (Done /\ ~a.failed) => Consistent(ModelOf(a))       \* a parse error returns no recipe at all
 InvValidRefs  == (Done /\ Valid(a)) => ValidRefIffModifier(ModelOf(a)) /\ ValidSameFoldedName(ModelOf(a), Fold)
 InvValidity   == Valid(a) <=> (~a.failed /\ \A i \in DOMAIN a.diags : a.diags[i].sev # "error")
 =============================================================================
